@@ -11,7 +11,7 @@ PLAN = dict(
         dict(glob="ops-*.ndjson", module="Trace_BitOps", cfg="Trace_BitOps.cfg", xmx="4g", timeout_quick=900,
              timeout_thorough=5400,
              corrupt=["count", "idx", "runs", "uw", "un", "fq", "d1", "bnot", "tt", "asu", "aso", "ret", "out", "m", "ex",
-                      "outs"]),
+                      "outs", "uw_r", "ud1_r", "ex_r"]),
         dict(glob="kf-*.ndjson", module="Trace_BitOps", cfg="Trace_BitOps.cfg", xmx="3g", timeout_thorough=3600,
              corrupt=["bnot", "ret"]),
         dict(glob="builder-*.ndjson", module="Trace_BitOps", cfg="Trace_BitOps.cfg", stateful=True, reset_ops=["bnew"],
@@ -32,7 +32,11 @@ PLAN = dict(
                "effect.",
     level_note="Two-operand primitives walk every (left offset, length) of the grid with one right offset of equal and one of "
                "different sub-word alignment, plus the boundary cube offsets x offsets x lengths (a seeded twelfth of it in the quick "
-               "tier); lengths above 200 are sampled (up to 1600). The builders are driven by (builder length, source offset, "
+               "tier); lengths above 200 are sampled: a large-size stage runs every primitive with a word / 16-word-block fast path at "
+               "lengths {512, 1023, 1024, 1025, 2047, 2048, 4096+k} x offsets {0,1,7,8,63,64,65} x contents {all 0, all 1, one 0 in "
+               "all-1 and one 1 in all-0 in the prefix word / first block / middle / last block / suffix word, random} (scalar "
+               "results: whole product in both tiers; long results, logged run-length encoded and compared with RLE(expected): whole "
+               "product in thorough, a seeded eighth in quick), plus a few random lengths up to 1600. The builders are driven by (builder length, source offset, "
                "length) triples of the same grid followed by random calls.",
     technique="TLA+ operators on bit sequences as the oracle, TLC trace validation of recorded calls over an exhaustive "
               "(offset, length, content, alignment) grid, TLC model checking of operator laws and of the builder machine",
